@@ -199,6 +199,10 @@ type WalkOpts struct {
 	// use the chooser; DevBudget bounds its costly (ChooseDev) choices per path (<0: unbounded).
 	Host      func(c *explore.Chooser, step int, m *Machine, storer variable.Storer)
 	DevBudget int
+	// Refusals > 0: between two compared steps the host may perform operations the library must refuse (RestoreAt of a
+	// snapshot that names an unknown node, registration of values that are no functions) - at most Refusals per path
+	// (deviation budget). A refused operation changes nothing: the walk goes on in lock-step with the unchanged model.
+	Refusals int
 	// Setup, if set, registers further handlers on every fresh real runner.
 	Setup func(r *Real, log *[]string)
 	// Step, if set, is called after every compared step for additional oracles.
@@ -289,6 +293,63 @@ func storeDiff(m *Machine, st variable.Storer) string {
 	return ""
 }
 
+// refusedOps are host operations every version of the library must refuse (C07: a snapshot naming an unknown node; C16:
+// values that are no functions). accepted reports that the operation returned without error.
+var refusedOps = []struct {
+	name string
+	do   func(r *Real, m *Machine) (accepted bool, pan string)
+}{
+	{"RestoreAt(snapshot of another script: unknown node, other variables and visit counts)", func(r *Real, m *Machine) (accepted bool, pan string) {
+		one, yes, text := 41.0, true, "other"
+		snap := &ysgo.Snapshot{CurrentNode: "no such node", Variables: map[string]variable.Value{"zz": {Number: &one}}, VisitedNodes: map[string]int{"no such node": 3, "nope": 1}}
+		for _, n := range m.P.Nodes {
+			snap.VisitedNodes[n.Title] = 5
+		}
+		for k, v := range m.Store { // every variable of the dialogue under another type
+			switch v.K {
+			case VNum:
+				snap.Variables[k] = variable.Value{String: &text}
+			case VBool:
+				snap.Variables[k] = variable.Value{Number: &one}
+			default:
+				snap.Variables[k] = variable.Value{Boolean: &yes}
+			}
+		}
+		defer func() {
+			if p := recover(); p != nil {
+				pan = fmt.Sprint(p)
+			}
+		}()
+		return r.DR.RestoreAt(snap) == nil, ""
+	}},
+	{"ConvertAndAddFunction of values that are no functions under new and existing names", func(r *Real, m *Machine) (accepted bool, pan string) {
+		defer func() {
+			if p := recover(); p != nil {
+				pan = fmt.Sprint(p)
+			}
+		}()
+		for _, name := range []string{"ghost", "nofn", "probe", "note", "visited", "visited_count", "string", "number"} {
+			if r.DR.ConvertAndAddFunction(name, 42) == nil || r.DR.ConvertAndAddFunction(name, func(x []int) {}) == nil {
+				return true, ""
+			}
+		}
+		return false, ""
+	}},
+	{"ConvertAndAddCommand of values that are no commands under new and existing names", func(r *Real, m *Machine) (accepted bool, pan string) {
+		defer func() {
+			if p := recover(); p != nil {
+				pan = fmt.Sprint(p)
+			}
+		}()
+		for _, name := range []string{"ghostcmd", "nocmd", "act", "beep", "later", "hang", "wait"} {
+			if r.DR.ConvertAndAddCommand(name, "not a function") == nil || r.DR.ConvertAndAddCommand(name, func() int { return 0 }) == nil {
+				return true, ""
+			}
+		}
+		return false, ""
+	}},
+}
+
 // Walk runs every path of the program on a fresh real runner in lock-step with a fresh model.
 // It returns the first mismatch in path order (shortest choices first), or nil.
 func Walk(p *Program, srcs []string, hs *HostSpec, o WalkOpts) (*Mismatch, WalkStats) {
@@ -304,6 +365,13 @@ func Walk(p *Program, srcs []string, hs *HostSpec, o WalkOpts) (*Mismatch, WalkS
 	budget := -1
 	if o.Host != nil {
 		budget = o.DevBudget
+	}
+	if o.Refusals > 0 {
+		if o.Host != nil && o.DevBudget >= 0 {
+			budget = o.DevBudget + o.Refusals
+		} else if o.Host == nil {
+			budget = o.Refusals
+		}
 	}
 	explore.Run(explore.Options{Budget: budget}, func(c *explore.Chooser) {
 		if found != nil {
@@ -373,6 +441,36 @@ func Walk(p *Program, srcs []string, hs *HostSpec, o WalkOpts) (*Mismatch, WalkS
 		}
 		r, storer := x.r, x.storer
 		rlog := &x.log
+		// refuse lets the host perform one operation the library must refuse (see WalkOpts.Refusals); false: a violation was recorded
+		refuse := func(step int) bool {
+			if o.Refusals <= 0 {
+				return true
+			}
+			if k := c.ChooseDev(1+len(refusedOps), "refused-op"); k > 0 {
+				op := refusedOps[k-1]
+				m.Notes = append(m.Notes, fmt.Sprintf("after step %d: %s (refused)", step, op.name))
+				trace = append(trace, op.name)
+				accepted, pan := op.do(r, m)
+				if pan != "" {
+					fail("refused-op-panic", fmt.Sprintf("after step %d: %s panicked: %s", step, op.name, pan))
+					return false
+				}
+				if accepted {
+					fail("refused-op-accepted", fmt.Sprintf("after step %d: %s reported success", step, op.name))
+					return false
+				}
+				if o.CompareStore {
+					if d := storeDiff(m, storer); d != "" {
+						fail("refused-op-store", fmt.Sprintf("after step %d: %s was refused and yet changed the variables: %s", step, op.name, d))
+						return false
+					}
+				}
+			}
+			return true
+		}
+		if !refuse(-1) {
+			return
+		}
 		mo := m.Start()
 		afterOptions := false
 		for step := 0; ; step++ {
@@ -538,6 +636,9 @@ func Walk(p *Program, srcs []string, hs *HostSpec, o WalkOpts) (*Mismatch, WalkS
 			}
 			if o.Host != nil {
 				o.Host(c, step, m, storer)
+			}
+			if !refuse(step) {
+				return
 			}
 			if mo.K == OOptions {
 				ch := c.Choose(len(mo.Opts), "opt")
